@@ -242,7 +242,7 @@ def execute(plan, ctx):
                         _random.Random(o['perm_seed']).shuffle(perm)
                         src.reorder(perm)
                     else:
-                        src.sort_by(**{'uid': 'alpha'})
+                        src.sort_by(reindex=bool(o['perm_seed'] % 2), **{'uid': 'alpha'})      # reindex=False leaves 'index' non-positional
                 except Exception as e:
                     ctx.probe('inplace_op_raised')
                     continue
